@@ -291,7 +291,7 @@ void viol(const char* prop, const char* cls, const char* fmt, ...) {
 
 /* ------------------------------------------------------ child execution */
 #define STACK_BASE  ((void*)0x1F0000000000ULL)
-#define STACK_SIZE  (64UL << 20)
+#define STACK_SIZE  (8UL << 20)    /* the default main-thread stack limit */
 
 void glue_run(const Scenario* sc, const Plan* p);   /* glue.c (Cello side) */
 
